@@ -84,7 +84,7 @@ def pick_cases(exports, rnd, quick):
     double = [c for c in exports if len(c["crashes"]) > 1]
     if not quick:
         rnd.shuffle(double)
-        double = double[:12000]          # seeded sample when the model exports more
+        double = double[:8000]           # seeded sample when the model exports more
         return single + double, len(single), len(double)
     by = collections.defaultdict(list)
     for c in double:
@@ -243,10 +243,44 @@ def selftest(ctx, runs_by_part, broken_runs):
     corrupt(reject, "ContinuationAccepted")
 
 
+def replay(ctx, drv):
+    """--replay <file written by report_violation>: run that crash schedule again on the real node and judge it."""
+    with open(ctx.replay) as f:
+        doc = json.load(f)
+    case = dict(doc["payload"]["case"])
+    case.setdefault("broken", [])
+    case.setdefault("retain", 0)
+    case["src"] = "replay"
+    cf = ctx.path("cases", "replay.json")
+    with open(cf, "w") as f:
+        f.write(json.dumps(case) + "\n")
+    out = ctx.path("traces", "replay.ndjson")
+    p = vlib.run_driver(ctx, drv, ["-cases", cf, "-out", out, "-nosweep"], timeout=600)
+    if p.returncode != 0:
+        raise vlib.CheckError("driver failed:\n" + (p.stdout or "")[-3000:])
+    ok, info = vlib.trace_validate(ctx, "Trace_ChainStore.tla", "Trace_ChainStore.cfg", out)
+    rows = vlib.read_ndjson(out)
+    runs = split_runs(rows)
+    if not ok and not info.get("broken"):
+        raise vlib.CheckError("replayed trace rejected without a broken clause: %s" % info)
+    clauses = {}
+    for line, clause in info.get("broken", []):
+        clauses.setdefault(clause, line)
+    if clauses:
+        for key, cl in attribute(runs[0], clauses).items():
+            vlib.report_violation(ctx, key, describe(runs[0], key, cl), replay_src=out, payload={"case": case})
+    else:
+        ctx.log("replayed schedule: every clause holds on the real node")
+    return vlib.finish(ctx, LEVEL, {"states": 0, "transitions": 0, "traces_validated_against_impl": len(runs), "faults_injected": len(runs),
+                                    "samples": [case], "rule": "replay of one recorded crash schedule"})
+
+
 def main(ctx):
     quick = ctx.tier == "quick"
     rnd = random.Random(ctx.seed)
     drv = vlib.build_driver(ctx, "d_chainstore", clocks=CLOCKS)
+    if getattr(ctx, "replay", None):
+        return replay(ctx, drv)
 
     # 1. bounded model, twice (in parallel): code as is (invariants + export of every finished behaviour) and the
     #    repaired design (every clause holds)
@@ -274,17 +308,36 @@ def main(ctx):
     # 2. schedules for the real node
     cases, n_single, n_double = pick_cases(exports, rnd, quick)
     classes = collections.Counter((c["sc"]["op"], x["ph"], x["k"]) for c in cases for x in c["crashes"])
-    cases_path = ctx.path("cases.json")
-    with open(cases_path, "w") as f:
-        for c in cases:
-            f.write(json.dumps(c) + "\n")
     shards = max(1, min(ctx.cores - 2, 12))
-    n_enum, n_dbl = (10, 5) if quick else (60, 25)
+    n_enum, n_dbl = (10, 5) if quick else (40, 20)
+    # scenario groups are spread over the driver processes by estimated cost (longest first): a fast sync on a chain
+    # beyond the retained versions deletes thousands of keys one by one
+    groups = collections.defaultdict(list)
+    for c in cases:
+        groups[json.dumps(c["sc"], sort_keys=True)].append(c)
+
+    def cost(g):
+        sc = g[0]["sc"]
+        w = (8.0 if sc["h0"] > g[0]["retain"] else 2.0) if sc["op"] == "FastSync" else (1.5 if sc["h0"] > g[0]["retain"] else 1.0)
+        return w * len(g)
+    load = [0.0] * shards
+    files = [[] for _ in range(shards)]
+    for g in sorted(groups.values(), key=cost, reverse=True):
+        k = load.index(min(load))
+        load[k] += cost(g)
+        files[k] += g
+    case_files = []
+    for k in range(shards):
+        pth = ctx.path("cases", "cases%02d.json" % k)
+        with open(pth, "w") as f:
+            for c in files[k]:
+                f.write(json.dumps(c) + "\n")
+        case_files.append(pth)
 
     def run_shard(k):
         out = ctx.path("traces", "part%02d.ndjson" % k)
-        p = vlib.run_driver(ctx, drv, ["-cases", cases_path, "-out", out, "-shard", "%d/%d" % (k, shards),
-                                       "-enum", str(n_enum), "-double", str(n_dbl)], timeout=3000)
+        p = vlib.run_driver(ctx, drv, ["-cases", case_files[k], "-out", out, "-enum", str(n_enum), "-double", str(n_dbl),
+                                       "-enumshard", "%d/%d" % (k, shards)], timeout=3400)
         return k, out, p
     t0 = time.time()
     with concurrent.futures.ThreadPoolExecutor(max_workers=shards) as ex:
@@ -361,7 +414,8 @@ def main(ctx):
         vlib.write_ndjson(ex, [ent["run"]["reset"]] + ent["run"]["rows"])
         what = "%s (%d runs)" % (describe(ent["run"], key, ent["clauses"]), ent["n"])
         vlib.report_violation(ctx, key, what, replay_src=ex,
-                              payload={"case": {"sc": ent["run"]["reset"]["sc"], "crashes": ent["run"]["reset"]["crashes"]}})
+                              payload={"case": {"sc": ent["run"]["reset"]["sc"], "crashes": ent["run"]["reset"]["crashes"],
+                                                "retain": ent["run"]["reset"].get("mretain", 0)}})
 
     # dead-driver / vacuity checks (a verdict from the real code goes first: code that deviates also starves crash classes)
     if not ctx.violations:
